@@ -461,9 +461,11 @@ def plan_rechunk(old_chunks, new_chunks, itemsize, threshold=None, block_size_li
     degree_limit = config.get("array.rechunk.degree-limit", _default_degree_limit)
 
     has_nans = (any(math.isnan(y) for y in x) for x in old_chunks)
+    has_zeros = any(c == 0 for dim in (*old_chunks, *new_chunks) for c in dim)
 
-    if not all(new_chunks) or any(has_nans):
-        # Empty or unknown chunks: leave planning (and fan-in) untouched.
+    if not all(new_chunks) or any(has_nans) or has_zeros:
+        # Empty, unknown or zero-width chunks: leave planning (and fan-in)
+        # untouched (merge_to_number requires positive widths).
         return [new_chunks]
 
     if len(new_chunks) <= 1:
